@@ -77,10 +77,25 @@ def _longest(ck: Checker) -> None:
     prog = ck.prog
     fn = prog.func("index.index", "StorageMapping.__getitem__")
     g = ck.cfg(fn)
+    # `prefix_len = len(prefix)` hoisted into a local: put back before the shapes are compared
+    import re as _re
+
+    _lens = {}
+    for nm_, ds_ in scope_of(fn).defs.items():
+        ds_ = [d for d in ds_ if d.kind in ("assign", "annassign")]
+        if len(ds_) == 1 and len(scope_of(fn).get(nm_)) == 1 and isinstance(ds_[0].value, ast.Call) and call_name(ds_[0].value) == "len":
+            _lens[nm_] = norm(ds_[0].value).replace(" ", "")
+
+    def _txt(e) -> str:
+        t = norm(e).replace(" ", "")
+        for nm_, v_ in _lens.items():
+            t = _re.sub(rf"(?<![\w.]){_re.escape(nm_)}(?!\w)", v_, t)
+        return t
+
     def _is_prefix_cmp(e) -> bool:
         if not (isinstance(e, ast.Compare) and len(e.ops) == 1 and isinstance(e.ops[0], ast.Eq)):
             return False
-        sides = {norm(e.left).replace(" ", ""), norm(e.comparators[0]).replace(" ", "")}
+        sides = {_txt(e.left), _txt(e.comparators[0])}
         for s_ in sides:
             other = (sides - {s_}).pop() if len(sides) == 2 else None
             if other and s_ == f"key[:len({other})]":
@@ -88,7 +103,7 @@ def _longest(ck: Checker) -> None:
         return False
 
     def _is_len_guard(e) -> bool:
-        t = norm(e).replace(" ", "")
+        t = _txt(e)
         return isinstance(e, ast.Compare) and ("len(" in t and "len(key)" in t)
 
     apps = [(n, c) for n in g.nodes.values() for c in calls_at(n) if is_method_call(c, "append")]
